@@ -287,7 +287,7 @@ Lemma idft1c_scale n cx cu F (c : C) y : idft1c n cx cu (fun u => Cmult c (F u))
 Proof. unfold idft1c. pose proof CS_ring as Rg.
   rewrite (sumZ_ext CS n _ (fun u => Cmult c (Cmult (F u) (@ke CS (qz (- ((y - cx) * (u - cu))) n))))).
   - change Cmult with (@kmul CS). rewrite (sumZ_scale_l CS Rg). cbn; ring.
-  - intros u _. ring. Qed.
+  - intros u _. cbn; ring. Qed.
 
 (* conj . dft . conj  is  n times the inverse transform (same origin on both sides) *)
 Lemma conj_dft1c_conj n c F y : 0 < n ->
@@ -296,7 +296,7 @@ Proof.
   intros Hn. unfold dft1c, idft1c. pose proof CS_ring as Rg.
   change Cconj with (@kconj CS). rewrite (kconj_sumZ CS CS_conj).
   transitivity (@sumZ CS n (fun u => Cmult (F u) (@ke CS (qz (- ((y - c) * (u - c))) n)))).
-  - apply sumZ_ext; intros u _. change Cmult with (@kmul CS).
+  - apply (sumZ_ext CS); intros u _. change Cmult with (@kmul CS).
     rewrite (kconj_mul CS CS_conj), (kconj_inv CS CS_conj), (kconj_e CS CS_conj), <- qz_opp by lia.
     do 3 f_equal. ring.
   - set (T := @sumZ CS n _). clearbody T. cbn in T |- *.
@@ -305,6 +305,12 @@ Proof.
     transitivity (Cmult (Cmult (RtoC (IZR n)) (Cinv (RtoC (IZR n)))) T); [|ring].
     rewrite Cinv_r by exact E. ring.
 Qed.
+
+Lemma dft1c_ext n cx cu f g u : (forall x, 0 <= x < n -> f x = g x) -> dft1c n cx cu f u = dft1c n cx cu g u.
+Proof. intros H. unfold dft1c. apply (sumZ_ext CS); intros x Hx. now rewrite H. Qed.
+Lemma dft1c_conj_inv n c G y : 0 < n ->
+  dft1c n c c (fun u => Cconj (G u)) y = Cconj (Cmult (RtoC (IZR n)) (idft1c n c c G y)).
+Proof. intros Hn. rewrite <- conj_dft1c_conj by assumption. symmetry. apply (kconj_inv CS CS_conj). Qed.
 
 Lemma Q2R_inv_zq_mul m n : 0 < m -> 0 < n -> RtoC (Q2R (/ zq (m * n))%Qc) = Cinv (RtoC (IZR m * IZR n)).
 Proof. intros Hm Hn. rewrite zq_Z2Qc, Q2R_Qc_inv, Q2R_Z2Qc, mult_IZR by (apply Z2Qc_neq0; nia).
@@ -329,16 +335,53 @@ Proof.
   assert (HF : forall u v, 0 <= u < m -> 0 <= v < n ->
      get F u v = Cmult s (dft1c n (n / 2) (n / 2) (fun y' => dft1c m (m / 2) (m / 2) (fun x' => get f x' y') u) v)).
   { intros u v Hu Hv. unfold F. rewrite (dft2_defining_sum CS Rg CS_kernel) by assumption.
-    unfold m, n. rewrite fourier_sum_cols by lia. fold s. cbn; ring. }
+    unfold m, n. rewrite fourier_sum_cols by lia. unfold s, m, n. apply Cmult_comm. }
   (* the conjugate transform of the conjugate *)
   assert (HG : get (dft2 (S:=CS) sq (amap kconj F) (/ zq m)%Qc (/ zq n)%Qc m n 0%Qc 0%Qc 0 0 unitary) x y
-               = Cmult (Cconj (Cmult (Cmult (RtoC (IZR m * IZR n)) s) (get f x y))) s).
+               = Cmult (Cconj (Cmult (RtoC (IZR m)) (Cmult (Cmult (RtoC (IZR n)) s) (get f x y)))) s).
   { rewrite (dft2_defining_sum CS Rg CS_kernel) by assumption. fold s.
     change Cmult with (@kmul CS). f_equal.
     pose proof (fourier_sum_rows (amap kconj F) x y) as E. cbn [amap nr nc get] in E.
     rewrite HFr, HFc in E. rewrite E by lia. clear E.
-    rewrite <- (Cconj_conj (dft1c m _ _ _ x)). change Cconj with (@kconj CS) at 1. f_equal.
-    rewrite (dft1c_ext_conj m n F y x HFr HFc) || idtac.
-    admit. }
-  admit.
-Admitted.
+    rewrite (dft1c_ext m _ _ _ (fun u => Cconj (Cmult (Cmult (RtoC (IZR n)) s)
+                 (dft1c m (m / 2) (m / 2) (fun x' => get f x' y) u)))).
+    - rewrite dft1c_conj_inv by assumption. change Cconj with (@kconj CS). f_equal.
+      rewrite idft1c_scale. unfold m. rewrite idft1c_dft1c by assumption. reflexivity.
+    - intros u Hu. change (@kconj CS) with Cconj. rewrite dft1c_conj_inv by assumption. f_equal.
+      rewrite (idft1c_ext n _ _ _ (fun v => Cmult s (dft1c n (n / 2) (n / 2)
+                 (fun y' => dft1c m (m / 2) (m / 2) (fun x' => get f x' y') u) v))) by (intros v Hv; now apply HF).
+      rewrite idft1c_scale. unfold n at 1 2 3. rewrite idft1c_dft1c by assumption. apply Cmult_assoc. }
+  destruct (unitary_scale_norm2 sq m n Hsq Hm Hn) as [Hs1 Hs2].
+  assert (Emn : RtoC (IZR m * IZR n) <> RtoC 0).
+  { intro E. apply RtoC_inj in E. apply Rmult_integral in E.
+    destruct E as [E|E]; apply eq_IZR in E; lia. }
+  assert (Hres : Cconj (Cmult (Cconj (Cmult (RtoC (IZR m)) (Cmult (Cmult (RtoC (IZR n)) s) (get f x y)))) s)
+                = Cmult (Cmult (RtoC (IZR m * IZR n)) (Cmult s (Cconj s))) (get f x y)).
+  { change Cconj with (@kconj CS). change Cmult with (@kmul CS).
+    rewrite (kconj_mul CS CS_conj), (kconj_inv CS CS_conj), RtoC_mult. cbn; ring. }
+  unfold idft2. fold F. rewrite HFr, HFc.
+  destruct unitary; cbn [amap get]; rewrite HG; change (@kconj CS) with Cconj; change (@kmul CS) with Cmult;
+    rewrite Hres; clear Hres HG HF.
+  - unfold s. cbn [unitary_scale]. unfold norm2 in Hs1. cbn [kmul kconj CS] in Hs1. rewrite Hs1.
+    rewrite RtoC_inv by (intro E; apply Emn; now rewrite E).
+    rewrite Cinv_r by exact Emn. cbn; ring.
+  - unfold s. cbn [unitary_scale k1 CS kofq]. rewrite Q2R_inv_zq_mul by assumption.
+    replace (Cmult (RtoC 1) (Cconj (RtoC 1))) with (RtoC 1) by (unfold Cmult, Cconj, RtoC; cbn; f_equal; ring).
+    transitivity (Cmult (Cmult (RtoC (IZR m * IZR n)) (Cinv (RtoC (IZR m * IZR n)))) (get f x y)); [cbn; ring|].
+    rewrite Cinv_r by exact Emn. cbn; ring.
+Qed.
+
+(* the inverse transform conserves energy under the unitary flag just as the forward transform does *)
+Theorem parseval_period_inv (sq : Qc -> C) (F : arr CS) Pr Pc shr shc :
+  sq_spec sq -> 0 < Pr -> 0 < Pc -> nr F <= Pr -> nc F <= Pc ->
+  @sumZ CS Pr (fun x => @sumZ CS Pc (fun y => @norm2 CS
+     (get (idft2 (S:=CS) sq F (/ zq Pr)%Qc (/ zq Pc)%Qc Pr Pc shr shc true) x y)))
+  = @sumZ CS (nr F) (fun u => @sumZ CS (nc F) (fun v => @norm2 CS (get F u v))).
+Proof.
+  intros Hsq HPr HPc Hm Hn. unfold idft2. cbn [amap get].
+  rewrite (sumZ_ext CS Pr _ (fun x => @sumZ CS Pc (fun y => @norm2 CS
+     (get (dft2 (S:=CS) sq (amap kconj F) (/ zq Pr)%Qc (/ zq Pc)%Qc Pr Pc shr shc 0 0 true) x y)))).
+  2:{ intros x _. apply (sumZ_ext CS); intros y _. apply (norm2_conj CS CS_ring CS_conj). }
+  rewrite parseval_period by assumption. cbn [amap nr nc get].
+  apply (sumZ_ext CS); intros u _. apply (sumZ_ext CS); intros v _. apply (norm2_conj CS CS_ring CS_conj).
+Qed.
